@@ -908,12 +908,22 @@ fn process_write_batch(
     let mut retry_entries = Vec::new();
     let mut first_error = None;
 
+    // Records this batch is going to look at. A record that was superseded before it was
+    // written may only be skipped (coalesced) when its replacement is handled here as well.
+    let batch_records: std::collections::HashSet<*const Record> = entries
+        .iter()
+        .filter(|entry| matches!(entry.op, Operation::Insert | Operation::Update))
+        .map(|entry| Arc::as_ptr(&entry.record))
+        .collect();
+
     for entry in entries {
         match entry.op {
             Operation::Insert | Operation::Update => {
                 let sector = reserved_sector(&entry);
                 if entry.record.sector.load(Ordering::Acquire) == 0
-                    && (entry.record.refcount.load(Ordering::Acquire) > 0 || sector.is_some())
+                    && (entry.record.refcount.load(Ordering::Acquire) > 0
+                        || sector.is_some()
+                        || replacement_is_buffered_elsewhere(&entry.record, &batch_records))
                 {
                     match prepare_record_data(&entry.record, format, disk_io) {
                         Ok(data) => {
@@ -932,13 +942,6 @@ fn process_write_batch(
                             retry_entries.push(entry);
                         }
                     }
-                } else if entry.record.sector.load(Ordering::Acquire) == 0
-                    && !entry.record.successor_is_durable_or_deleted()
-                {
-                    // Superseded before it was written. Its replacement may not have been
-                    // buffered yet, so a flush returning now would acknowledge a state older
-                    // than this generation: keep the entry until a successor is durable.
-                    retry_entries.push(entry);
                 }
             }
             Operation::Delete => {
@@ -1179,6 +1182,26 @@ fn process_write_batch(
     BatchOutcome {
         result,
         retries: retry_entries,
+    }
+}
+
+/// True for a record that was replaced before it was written and whose replacement is
+/// neither part of this batch nor durable yet - its buffer entry has not arrived, or it
+/// sits in a later batch. Dropping such a record would let a flush complete (and be
+/// acknowledged) without any generation at or after it on the device, and a key that is
+/// overwritten faster than the flusher runs would never reach the device at all; it is
+/// written like a live record instead and retired once a successor is durable.
+fn replacement_is_buffered_elsewhere(
+    record: &Record,
+    batch_records: &std::collections::HashSet<*const Record>,
+) -> bool {
+    match record.successor() {
+        // deleted or expired: there is nothing newer to wait for and nothing to preserve
+        None => false,
+        // the replacement is decided in this very batch
+        Some(next) if batch_records.contains(&Arc::as_ptr(next)) => false,
+        // otherwise only a durable (or deleted) later generation makes this one redundant
+        Some(_) => !record.successor_is_durable_or_deleted(),
     }
 }
 
